@@ -27,7 +27,7 @@ for f in sorted(glob.glob(os.path.join(res_dir, 'C*_*m[0-9].json'))):
         continue
     meta_src = os.path.join(src, '%s.json' % m)
     meta = json.load(open(meta_src)) if os.path.exists(meta_src) else {}
-    ok = r.get('baseline_ok', None) is not False and r.get('demo_patched_rc', 1) != 0 and r.get('demo_clean_rc', 0) == 0
+    ok = r.get('baseline_ok', None) is not False and (r.get('demo_patched_rc', 1) != 0 or (r.get('demo_outdated') and r.get('caught_by'))) and r.get('demo_clean_rc', 0) == 0
     if not ok:
         print('NOT CONFIRMED', base, r.get('baseline_ok'), r.get('demo_patched_rc'), r.get('demo_clean_rc'))
         continue
@@ -43,6 +43,7 @@ for f in sorted(glob.glob(os.path.join(res_dir, 'C*_*m[0-9].json'))):
         'confirmed': {'repo_suite_still_86_of_86': r.get('baseline_ok'), 'demo_exit_on_patched_tree': r.get('demo_patched_rc'), 'demo_exit_on_clean_tree': r.get('demo_clean_rc'),
                       'how': 'tools/try_mutant.py <patch> --props %s --baseline --demo <demo> (scratch worktree of /repo HEAD, FXPVERIF_REPO)' % pid},
         'caught_by_quick_checks': r.get('caught_by'), 'check_results': r.get('results'),
+        **({'demo_outdated': r['demo_outdated']} if r.get('demo_outdated') else {}),
     }
     json.dump(out, open(os.path.join(dst, 'meta.json'), 'w'), indent=1)
     rows.append((base, pid, (meta.get('summary') or '')[:110], ','.join(r.get('caught_by') or []) or 'MISSED'))
